@@ -388,9 +388,9 @@ func (c *Cluster) dagReplay(variants int) {
 		return
 	}
 	c.stats.probe("dagreplay-dag")
-	if c.synthetic {
-		c.findNears(ref)
-	}
+	// the reference model runs over every replayed history (per-round sets as the
+	// reference instance derived them): cross-check and fragile votes
+	c.findNears(ref)
 	c.crossCheckRefModel(ref)
 	c.trace.add(fmt.Sprintf("dag:%s:%d", c.dagShape(), len(ref.sn.app.log)))
 	c.stats.BlocksDelivered += len(ref.sn.app.log)
@@ -442,7 +442,11 @@ func (c *Cluster) dagReplay(variants int) {
 		if kind == "delay" || (kind == "smallbadger" && r.Bool(0.6)) {
 			order = c.dag.delayedOrder(r, base)
 		}
-		if len(c.synthNears) > 0 && vi < 2*len(c.synthNears) && vi < 6 && whole {
+		nearVariants := 6
+		if !c.synthetic {
+			nearVariants = 2 // harvested histories keep most variants for orders, sub-DAGs, stores, caches
+		}
+		if len(c.synthNears) > 0 && vi < 2*len(c.synthNears) && vi < nearVariants && whole {
 			// two lagging views around a fragile vote: one learns about the lopsided
 			// voter first, the other about the real decider first
 			kind = "near-early"
